@@ -52,7 +52,7 @@ func init() {
 		Name:  "PF-index",
 		Doc:   "every index and slice expression of module code is within bounds: by a dominating length fact on the pruned CFG (incl. inlined predicates, API facts, constant lengths, range keys), or by a reviewed invariant of /verif/tables/index.json (matched by function + expression)",
 		Props: []string{"C02"},
-		Floor: 90,
+		Floor: 40,
 		Run: func(c *Ctx, s *core.Sink) {
 			tab := loadIndexTable(c)
 			used := map[int]bool{}
